@@ -324,8 +324,11 @@ class SeekableStreamReaderWrapper(TellableStreamWrapper):
 
     async def seek(self, offset: int) -> None:
         if offset > self.position:
-            await self.stream.read(offset - self.position)
-            self.position = offset
+            # The underlying stream can return fewer bytes than requested:
+            # `TellableStreamWrapper.read` loops until the whole gap is consumed
+            await self.read(offset - self.position)
+            if self.position < offset:
+                raise tarfile.ReadError("unexpected end of data")
         elif offset < self.position:
             raise tarfile.ReadError("Cannot seek backward with streams")
 
